@@ -66,6 +66,7 @@ class Tpl(object):
         self.flagsets = flagsets    # name of the flag-set table entry
         self.cap = cap
         self.group = group
+        self.form = ""              # operand-form tag appended to the mnemonic in bucket keys ("ADDS:sh32", ...)
         self.key = "%s|%s" % (arch, text)
         self.code = None
         self.nlines = text.count("\n") + 1
@@ -312,6 +313,19 @@ def arm_dp(arch, op, s, cond, op2, regs=("R0", "R1", "R2", "R3"), wide=False, it
     if thumb and cond and it:
         text = "it %s\n%s" % (cond, text)
     tpl = Tpl(arch, text, mn.upper(), slots, None, group=group, cap=cap)
+    parts = []
+    if group in ("hireg", "dp16", "it16"):
+        parts.append(group)
+    if kind == "imm" and op2[1] > 0xff and not (thumb and op2[1] in (0x00ff00ff, 0xff00ff00, 0xabababab)):
+        parts.append("imm-rot")
+    elif kind == "sh" and op2[2] == 32:
+        parts.append("sh32")
+    elif kind in ("rrx", "rsr"):
+        parts.append(kind)
+    if cond:
+        parts.append(("it" if thumb and it else "cond") + ("-S" if s and thumb and op not in NO_RD else "")
+                     + ("-vsvc" if cond in ("vs", "vc") else ""))
+    tpl.form = "/".join(parts)
     if fl:
         tpl.flagsets = fl
     elif cond:
@@ -369,6 +383,12 @@ def arm_shift_ins(arch, typ, s, form, regs=("R0", "R1", "R2"), wide=False, cond=
     if arch == "armtl" and cond:
         text = "it %s\n%s" % (cond, text)
     tpl = Tpl(arch, text, mn.upper(), slots, None, group="shift", flagsets="all" if cond else "c")
+    if form[0] == "imm":
+        tpl.form = "imm32" if form[1] == 32 else ""
+    else:
+        tpl.form = "by-reg" if form[0] == "reg" else "by-reg/rd=rm"
+    if cond:
+        tpl.form = (tpl.form + "/" if tpl.form else "") + "it"
 
     def model(st):
         n, z, c, v = st["nf"], st["zf"], st["cf"], st["of"]
@@ -607,7 +627,11 @@ def a64_templates(thorough=False):
     arch = "aarch64l"
 
     def add(text, mn, slots, fn, fl="01", cap=None, group="a64"):
-        out.append(Tpl(arch, text, mn, slots, fn, flagsets=fl, cap=cap, group=group))
+        t = Tpl(arch, text, mn, slots, fn, flagsets=fl, cap=cap, group=group)
+        last = text.rsplit(",", 1)[-1].strip()
+        if fl == "all" and last in ("nv", "vs", "vc"):
+            t.form = "cond-" + ("nv" if last == "nv" else "vsvc")
+        out.append(t)
 
     def rn(p, i):
         return "%s%d" % (p, i)
@@ -916,7 +940,10 @@ def mips_templates(thorough=False):
         sub = []
 
         def add(text, mn, slots, fn, cap=None, group="mips", sub=sub, arch=arch):
-            sub.append(Tpl(arch, text, mn, slots, fn, cap=cap, group=group))
+            t = Tpl(arch, text, mn, slots, fn, cap=cap, group=group)
+            if " $zero," in text and mn not in ("DIV", "DIVU"):
+                t.form = "rd-zero"
+            sub.append(t)
         A, B = "A0", "A1"
         two = [(A, "w32"), (B, "w32")]
         R3 = {"addu": lambda x, y: x + y, "subu": lambda x, y: x - y, "and": lambda x, y: x & y,
